@@ -68,6 +68,13 @@ def enumerate_cases(tier):
                     if ext in OPENABLE and pre != "partial-numbered":
                         yield {"ext": ext, "pre": pre, "nf": nf, "force": force, "via": "open", "path": "abs", "seed": 0}
         yield {"ext": ext, "pre": "same", "nf": 3, "force": False, "via": "read", "path": "abs", "seed": 0}
+        for via in ("save", "open", "method", "class"):
+            if (via == "open" and ext not in OPENABLE) or (via == "class" and ext not in CLASS):
+                continue
+            for nf in (1, 3):
+                for pth in ("rel", "pathlib"):
+                    # the path given relative to the working directory, or as a pathlib.Path
+                    yield {"ext": ext, "pre": "same", "nf": nf, "force": False, "via": via, "path": pth, "seed": 0}
         for via in ("save", "method"):
             for nf in (1, 3):
                 for force in (False, True):
@@ -88,7 +95,7 @@ def enumerate_cases(tier):
 def strategy(draw, tier="quick"):
     ext = draw(st.sampled_from(EXTS))
     pre = draw(st.sampled_from(PRE if _restart(ext) else PRE[:-1]))
-    nf = draw(st.integers(1, 12))
+    nf = draw(st.sampled_from([1, 1, 2, 3, 5, 12]))
     if pre == "partial-numbered" and nf == 1:
         nf = 2
     via = draw(st.sampled_from(["save", "save", "open", "read", "method", "class"]))
@@ -200,7 +207,16 @@ def run_case(case):
     if via in ("open", "class") and _restart(ext):
         nf = 1   # a restart file object holds one frame and writes to the path itself
     if via in ("open", "class") and case["path"] == "pathlib":
-        case = dict(case, path="abs")  # path-like support of the file classes is not this property's subject
+        # path-like support of the file classes is not this property's subject: where a class does not take a pathlib.Path for a
+        # fresh file at all, the case falls back to the string form
+        with files.scratch() as d0:
+            try:
+                _write_via_open(pathlib.Path(os.path.join(d0, _file_name(ext, case.get("name", "std")))), ext,
+                                _traj(1 if _restart(ext) else 2, na, 0, ext), True, cls=(via == "class") or None)
+                labels.append("pathlib-through-" + via)
+            except Exception:
+                labels.append("pathlib-unsupported-by-file-class")
+                case = dict(case, path="abs")
     nocell = bool(case.get("nocell"))
     if nocell:
         labels.append("trajectory-without-cell")
